@@ -3,7 +3,9 @@
 #include <stdint.h>
 
 #include <functional>
+#include <memory>
 #include <stdexcept>
+#include <string>
 
 #include "Strings.hh"
 
@@ -13,9 +15,16 @@ class expectation_failed : public std::logic_error {
 public:
   expectation_failed(const char* msg, const char* file, uint64_t line);
 
-  const char* msg;
+  const char* msg; // Points into msg_data, so it stays valid as long as the exception (or any copy of it) exists
   const char* file;
   uint64_t line;
+
+private:
+  // The message is often built at runtime (see expect_raises_fn) and the
+  // caller's buffer is gone by the time a handler looks at the exception, so
+  // the exception keeps its own copy. It's shared so that copying the
+  // exception cannot throw and msg remains valid in every copy.
+  std::shared_ptr<const std::string> msg_data;
 };
 
 #define expect_eq(a, b) expect_msg((a) == (b), #a " != " #b)
